@@ -87,8 +87,9 @@ Fixpoint code_ok (top : bool) (f : obj) : bool :=
       && (negb (existsb (String.eqb h) doc_heads) || str_args_ok args)
       && (fix go (l : list obj) : bool := match l with [] => true | a :: r => code_ok false a && go r end) args
   | L xs => (fix go (l : list obj) : bool := match l with [] => true | a :: r => code_ok false a && go r end) xs
-  | Lam _ doc body =>
+  | Lam ll doc body =>
       (top || doc_word_ok doc)
+      && (fix go (l : list obj) : bool := match l with [] => true | a :: r => code_ok false a && go r end) ll
       && (fix go (l : list obj) : bool := match l with [] => true | a :: r => code_ok false a && go r end) body
   | Dot xs _ | Vec xs _ _ | Arr _ xs _ _ =>
       (fix go (l : list obj) : bool := match l with [] => true | a :: r => code_ok false a && go r end) xs
@@ -138,7 +139,8 @@ Fixpoint load_unmodelled (s : session) (forms : list obj) : bool :=
 (* documentation strings the pretty printer leaves alone (printer.go:760 AppendDoc), short enough for margin 120 *)
 Definition doc_text_ok (d : string) : bool := doc_chars_ok d && (String.length d <=? 100)%nat.
 Definition docs_ok (s : session) : bool :=
-  forallb (fun kv => doc_text_ok (v_doc (snd kv))) (s_vars s) && forallb (fun kv => doc_text_ok (f_doc (snd kv))) (s_funs s).
+  forallb (fun kv => doc_text_ok (v_doc (snd kv))
+                     && match v_val (snd kv) with Some (Flv _ _ _ _ _ d) => doc_text_ok d | _ => true end) (s_vars s) && forallb (fun kv => doc_text_ok (f_doc (snd kv))) (s_funs s).
 
 Definition check_session (hist : list obj) (wildtext snapfail : bool) (snap1 : list obj) (loadok : list bool) (snap2 : list obj)
                          (textsame probesame : bool) : N :=
@@ -154,8 +156,10 @@ Definition check_session (hist : list obj) (wildtext snapfail : bool) (snap1 : l
       (* a function that calls a later-named user function or macro is reloaded through the evaluator's forward
          reference placeholder, which the model does not describe [C19-snapshot-forward-reference] *)
       if negb (forallb (calls_ok (s_funs s)) (s_funs s)) then 0%N else
+      (* two or more flavors are written in an order that is not a function of the session [C19-flavor-order-unstable] *)
+      if (2 <=? List.length (filter is_flavor_var (s_vars s)))%nat then 0%N else
       let agree := objs_eqb ms1 snap1 && bools_eqb oks loadok && objs_eqb ms2 snap2 in
-      let g := sess_ok s && docs_ok s && forallb (fun kv => forallb (code_ok false) (f_body (snd kv))) (s_funs s) in
+      let g := sess_ok_x s && docs_ok s && forallb (fun kv => forallb (code_ok false) (f_ll (snd kv) ++ f_body (snd kv))) (s_funs s) in
       let obs_ok := forallb (fun b => b) loadok && objs_eqb snap2 snap1 && textsame && probesame in
       if snapfail then (if g then 2 else 0)%N else    (* a crash of the snapshot writer is not something the model predicts *)
       if agree then
@@ -195,7 +199,7 @@ Definition guarded (c : case) : bool :=
   | DCase v _ _ _ _ => loadable v
   | SCase hist wildtext _ _ _ _ _ _ =>
       negb wildtext && match run empty_session hist with
-                       | Ok s => sess_ok s && docs_ok s && forallb (fun kv => forallb (code_ok false) (f_body (snd kv))) (s_funs s)
+                       | Ok s => sess_ok_x s && docs_ok s && forallb (fun kv => forallb (code_ok false) (f_ll (snd kv) ++ f_body (snd kv))) (s_funs s)
                        | Err _ => false
                        end
   end.
